@@ -242,29 +242,66 @@ def int_option(has_min, has_max):
 INT_OPTION = [int_option(True, True), int_option(True, False), int_option(False, False)]
 
 
-def lemma_option_ranges(w):
-    """the ranges the option table declares (read from the checked tree) establish the preconditions of create_emsg_boxes /
-    create_manifest_context / create_binary_signal: interval >= 1, timescale >= 1, count, start, duration >= 0,
-    version in {0, 1}; and get_dash_options hands each key's range to int_or_default_from_string"""
+def event_class_tables(repo):
+    """MINIMUM_VALUES / MAXIMUM_VALUES / DEFAULT_VALUES as every event class of dashlive/server/events/*.py sees them: the
+    class attribute is looked up along the base-class chain (as Python does), the first class that assigns it wins.  Only
+    dict literals can be evaluated here; DEFAULT_VALUES may also be `merge(Base.DEFAULT_VALUES, {...})` (literal second
+    argument).  Anything else cannot be decided by this lemma (Unsupported -> UNDECIDED, never a silent pass)."""
     import ast as _ast
+    import os
+    classes = {}
+    d = os.path.join(repo, 'dashlive/server/events')
+    for fn in sorted(os.listdir(d)):
+        if fn.endswith('.py'):
+            for node in _ast.parse(open(os.path.join(d, fn)).read()).body:
+                if isinstance(node, _ast.ClassDef):
+                    classes[node.name] = node
+
+    def own(cls, attr):
+        for st in cls.body:
+            tgt = st.targets[0] if isinstance(st, _ast.Assign) and len(st.targets) == 1 else (st.target if isinstance(st, _ast.AnnAssign) else None)
+            if isinstance(tgt, _ast.Name) and tgt.id == attr and getattr(st, 'value', None) is not None:
+                return st.value
+        return None
+
+    def resolve(name, attr):
+        cls = classes.get(name)
+        if cls is None:
+            return {}
+        v = own(cls, attr)
+        if v is None:
+            for b in cls.bases:
+                if isinstance(b, _ast.Name) and b.id in classes:
+                    return resolve(b.id, attr)
+            return {}
+        if isinstance(v, _ast.Dict):
+            return _ast.literal_eval(v)
+        if isinstance(v, _ast.Call) and _ast.unparse(v.func) == 'merge' and len(v.args) == 2 and isinstance(v.args[0], _ast.Attribute) \
+                and isinstance(v.args[0].value, _ast.Name) and v.args[0].attr == attr and isinstance(v.args[1], _ast.Dict):
+            out = dict(resolve(v.args[0].value.id, attr))
+            out.update(_ast.literal_eval(v.args[1]))
+            return out
+        raise Unsupported(f'{name}.{attr} is not a dict literal: {_ast.unparse(v)[:80]}')
+    concrete = [n for n, c in classes.items() if n not in ('EventBase', 'RepeatingEventBase', 'EventFactory') and
+                any(isinstance(b, _ast.Name) and b.id in ('EventBase', 'RepeatingEventBase') for b in c.bases)]
+    return {n: {a: resolve(n, a) for a in ('MINIMUM_VALUES', 'MAXIMUM_VALUES', 'DEFAULT_VALUES')} for n in ['EventBase'] + concrete}
+
+
+def lemma_option_ranges(w):
+    """the ranges every event class declares (resolved along its base classes, read from the checked tree) establish the
+    preconditions of create_emsg_boxes / create_manifest_context / create_binary_signal: interval >= 1, timescale >= 1,
+    count, start, duration >= 0, version in {0, 1} - for the defaults as well; and get_dash_options hands each key's range to
+    int_or_default_from_string"""
     import os
     repo = w.get('__repo__', '/repo')
     src = open(os.path.join(repo, EVB)).read()
-    tree = _ast.parse(src)
-    tables = {}
-    for cls in tree.body:
-        if isinstance(cls, _ast.ClassDef) and cls.name == 'EventBase':
-            for st in cls.body:
-                if isinstance(st, _ast.Assign) and isinstance(st.targets[0], _ast.Name) and st.targets[0].id in ('MINIMUM_VALUES', 'MAXIMUM_VALUES', 'DEFAULT_VALUES'):
-                    try:
-                        tables[st.targets[0].id] = _ast.literal_eval(st.value)
-                    except ValueError:
-                        pass
-    mins, maxs, dflt = tables.get('MINIMUM_VALUES', {}), tables.get('MAXIMUM_VALUES', {}), tables.get('DEFAULT_VALUES', {})
-    ok = all(k in mins and mins[k] >= lo for k, (lo, hi) in OPTION_RANGES.items()) and \
-        all(hi is None or (k in maxs and maxs[k] <= hi) for k, (lo, hi) in OPTION_RANGES.items()) and \
-        all(isinstance(dflt.get(k), int) and not isinstance(dflt.get(k), bool) and dflt[k] >= lo and (hi is None or dflt[k] <= hi)
-            for k, (lo, hi) in OPTION_RANGES.items())
+    ok = True
+    for name, t in event_class_tables(repo).items():
+        mins, maxs, dflt = t['MINIMUM_VALUES'], t['MAXIMUM_VALUES'], t['DEFAULT_VALUES']
+        ok = ok and all(k in mins and mins[k] >= lo for k, (lo, hi) in OPTION_RANGES.items()) and \
+            all(hi is None or (k in maxs and maxs[k] <= hi) for k, (lo, hi) in OPTION_RANGES.items()) and \
+            all(isinstance(dflt.get(k), int) and not isinstance(dflt.get(k), bool) and dflt[k] >= lo and (hi is None or dflt[k] <= hi)
+                for k, (lo, hi) in OPTION_RANGES.items())
     wired = 'cls.int_or_default_from_string(dflt,cls.MINIMUM_VALUES.get(key),cls.MAXIMUM_VALUES.get(key))' in ''.join(src.split())
     return [], z3.BoolVal(bool(ok and wired))
 
